@@ -38,9 +38,9 @@ type Interval struct{ Lo, Hi int64 }
 type ROMode int
 
 const (
-	RW          ROMode = iota
-	ROWritable         // Writable() returns backend.ErrIncorrectOpenMode
-	ROHardFail         // Writable() succeeds but WriteAt fails (like an O_RDONLY *os.File)
+	RW         ROMode = iota
+	ROWritable        // Writable() returns backend.ErrIncorrectOpenMode
+	ROHardFail        // Writable() succeeds but WriteAt fails (like an O_RDONLY *os.File)
 )
 
 // Device is a sparse in-memory device of a declared size.
